@@ -81,6 +81,9 @@ async def play_asgi(sc, order, timing):
             break
         msgs.append({"type": "http.request", "body": c, "more_body": i < len(ch)})
     calls = [0]
+    returned = [0]
+    events = []
+    play_asgi.last_events = events
 
     async def receive():
         calls[0] += 1
@@ -93,6 +96,7 @@ async def play_asgi(sc, order, timing):
             await asyncio.sleep(2)
         if not msgs:
             await asyncio.Event().wait()
+        returned[0] += 1
         return msgs.pop(0)
 
     scope = {"type": "http", "method": "POST", "path": "/", "query_string": b"", "headers": [(b"content-type", BODIES[sc["ctype"]][2].encode())]}
@@ -118,6 +122,7 @@ async def play_asgi(sc, order, timing):
             except BaseException as e:  # noqa
                 results[t].append(classify(e))
                 values[t].append(None)
+            events.append({"t": t + 1, "r": results[t][-1], "rx": returned[0]})
 
     ts = [asyncio.ensure_future(task(t, sc["progs"][t])) for t in order]
     await asyncio.wait_for(asyncio.gather(*ts), 100)
@@ -213,6 +218,7 @@ def run(ctx):
         outcome = (tuple(tuple(x["res"]) for x in seq), st["rx"])
         allowed.setdefault(key, set()).add(outcome)
     n = 0
+    asgi_traces = []
     for sc in scs:
         key = Rec(sc)
         if key not in allowed:
@@ -233,6 +239,8 @@ def run(ctx):
                     results, values, calls, full = play_wsgi(sc)
                 else:
                     results, values, calls, full = vloop.run(play_asgi(sc, order, timing))
+                    asgi_traces.append({"sc": {"nchunks": sc["nchunks"], "discAt": sc["discAt"], "ctype": sc["ctype"], "atomic": False,
+                                               "progs": [list(p) for p in sc["progs"]]}, "events": list(play_asgi.last_events), "case": case})
             except (asyncio.TimeoutError, vloop.Deadlock) as e:
                 ctx.violation(case, "all tasks finish", type(e).__name__, "an accessor never returned")
                 continue
@@ -260,6 +268,36 @@ def run(ctx):
                 ctx.nontriv((iface, str(order), timing) + tuple(sorted((k, str(v)) for k, v in sc.items())))
             if n in (10, 2000):
                 ctx.sample({"case": case, "observed": obs, "admissible": len(ok_vecs)})
+    # code -> spec: the ORDER in which the accesses of concurrent tasks finished, and the number of server messages consumed at each
+    # of those moments, must be explained by some interleaving of RequestBody.tla (silent steps: deliveries, the shared computations)
+    from .. import tracecheck
+    acc, rejected = tracecheck.validate(wd, "TraceRequestBody", [{"sc": t["sc"], "events": t["events"]} for t in asgi_traces],
+                                        constants={"Scenarios": frozenset()}, invariants=["OnceOnly", "BodyExact", "ErrorsDocumented"])
+    ctx.traces_validated += acc
+    ctx.bounds["asgi_traces"] = len(asgi_traces)
+    # binding self-test: the same traces with one field falsified (a message count, a result, the finishing task) must be rejected
+    import copy
+    probe = [copy.deepcopy({"sc": t["sc"], "events": t["events"]}) for t in asgi_traces if len(t["events"]) >= 2 and len(t["sc"]["progs"]) >= 2][:30]
+    for i, t in enumerate(probe):
+        e = t["events"][-1]
+        if i % 3 == 0:
+            e["rx"] += 1
+        elif i % 3 == 1:
+            e["r"] = "ok" if e["r"] != "ok" else "ClientDisconnect"
+        else:
+            t["events"] = [t["events"][-1]] * (len(t["events"]) + 1)       # one task finishing more accesses than its program has
+    if probe:
+        pacc, prej = tracecheck.validate(wd, "TraceRequestBody", probe, constants={"Scenarios": frozenset()})
+        # (a falsified trace can happen to be another legal interleaving; most cannot)
+        if pacc > len(probe) // 5:
+            raise common.MachineryError("trace validation accepted %d of %d falsified traces: TraceRequestBody.tla does not bind" % (pacc, len(probe)))
+        ctx.notes.append("binding self-test: %d falsified traces (message count / result / finishing task), %d rejected" % (len(probe), len(probe) - pacc))
+    for tid, name, st in tracecheck.validate.last_invariant_failures:
+        ctx.violation(asgi_traces[tid]["case"], "invariant " + name, None, "recorded execution reaches a state violating %s of RequestBody.tla" % name)
+    for tid, prefix in rejected:
+        t = asgi_traces[tid]
+        ctx.drift_at(t["case"], "an interleaving of RequestBody.tla", t["events"][:prefix + 1][-4:],
+                     "the order of finished accesses / consumed messages is not explained by RequestBody.tla at event %d" % (prefix + 1))
     # WSGI has no disconnect event: a client that goes away shows as wsgi.input ending before CONTENT_LENGTH bytes were read,
     # and a connection that is kept open holds more than CONTENT_LENGTH bytes.  Neither may change what the accessors return.
     for sc in scs:
